@@ -86,10 +86,21 @@ Paths3 == {<<s, t, u>> : s \in Steps, t \in Steps, u \in Steps}
 LensPaths == IF Tier = "quick" THEN Paths1 \cup Paths2 ELSE Paths1 \cup Paths2 \cup Paths3
 KVars == {Str("a"), Num(1), Bool(TRUE)}
 HasVarStep(p) == \E i \in 1..Len(p) : p[i].lk = "var"
+\* carriers: the value as a scalar; an array as a canon stream (its elements are the stream's values); an object of
+\* key groups {key: [values]} as a canon stream map (one pair per value; a key written with digits is a numeric key)
+CanonValues == {v \in LensValues : IsArr(v)} \cup {Arr(<<Num(0), Str("a"), Arr(<<Num(1), Obj(<<KV("a", Str("b"))>>)>>)>>)}
+MapValues == { Obj(<<>>),
+               Obj(<<KV("a", Arr(<<Str("a"), Num(1)>>))>>),
+               Obj(<<KV("1", Arr(<<Num(0)>>)), KV("a", Arr(<<Obj(<<KV("a", Num(1))>>), Str("b")>>))>>),
+               Obj(<<KV("1", Arr(<<Str("b"), Arr(<<Num(0), Num(1)>>)>>)), KV("b", Arr(<<Null>>))>>),
+               Obj(<<KV("0", Arr(<<Num(1), Num(0), Str("a")>>)), KV("1", Arr(<<Bool(TRUE)>>)), KV("a", Arr(<<Arr(<<Str("a")>>)>>))>>) }
+LensCase(cr, v, p, k) == [family |-> "lens", carrier |-> cr, value |-> v, path |-> p, kvar |-> k]
 LensCases ==
-    {[family |-> "lens", value |-> v, path |-> p, kvar |-> k] :
-        v \in LensValues, p \in LensPaths, k \in KVars}
-    \cup {[family |-> "lens", value |-> v, path |-> <<[lk |-> "len"]>>, kvar |-> Str("a")] : v \in LensValues}
+    {LensCase("scalar", v, p, k) : v \in LensValues, p \in LensPaths, k \in KVars}
+    \cup {LensCase("scalar", v, <<[lk |-> "len"]>>, Str("a")) : v \in LensValues}
+    \cup {LensCase("canon", v, p, k) : v \in CanonValues, p \in LensPaths, k \in KVars}
+    \cup {LensCase("canon", v, <<[lk |-> "len"]>>, Str("a")) : v \in CanonValues}
+    \cup {LensCase("map", v, p, k) : v \in MapValues, p \in Paths1 \cup Paths2 \cup Paths3, k \in KVars}
 \* keep the cases whose path does not use k only once (for k = "a")
 LensCasesNorm == {c \in LensCases : HasVarStep(c.path) \/ c.kvar = Str("a")}
 
@@ -100,9 +111,24 @@ SubstStep(st, k) ==
     ELSE IF IsStr(k) THEN [lk |-> "field", name |-> k.s]
     ELSE IF IsNum(k) /\ Digit(k.s) >= 0 THEN [lk |-> "idx", ix |-> Digit(k.s)]
     ELSE [lk |-> "impossible"]
+\* On a canon stream the lens is plain navigation on the array of its values.  On a canon map the first accessor names a key
+\* (a field name, an index or a scalar holding a string or a number, all compared as text) and selects the key's group of
+\* values - the empty group when the key is absent -; the rest is plain navigation inside the group.
+KeyText(st, k) ==
+    IF st.lk = "field" THEN st.name
+    ELSE IF st.lk = "idx" THEN ToString(st.ix)
+    ELSE IF st.lk = "var" /\ (IsStr(k) \/ IsNum(k)) THEN k.s
+    ELSE "?impossible"
 LensOracle(c) ==
     IF Len(c.path) = 1 /\ c.path[1].lk = "len"
     THEN (IF IsArr(c.value) THEN [ok |-> TRUE, v |-> Num(Len(c.value.q))] ELSE NoNav)
+    ELSE IF c.carrier = "map" THEN
+        LET key == KeyText(c.path[1], c.kvar)
+            g == Lookup(c.value.q, key)
+            group == IF g.ok THEN g.v ELSE Arr(<<>>)
+            rest == SubSeq(c.path, 2, Len(c.path)) IN
+        IF key = "?impossible" THEN NoNav
+        ELSE Nav(group, [i \in 1..Len(rest) |-> SubstStep(rest[i], c.kvar)])
     ELSE Nav(c.value, [i \in 1..Len(c.path) |-> SubstStep(c.path[i], c.kvar)])
 LensExpect(c, o) ==
     LET r == LensOracle(c) IN
@@ -145,8 +171,25 @@ D2quick == {[op |-> "seq", l |-> Def, r |-> a] : a \in D1} \cup Wrap(Compound(Le
 D2full == D2quick \cup Compound(Wrap(Leaves), Leaves) \cup Compound(Leaves, Wrap(Leaves)) \cup Wrap(Compound(Leaves, Leaves))
           \cup {[op |-> "seq", l |-> Def, r |-> [op |-> "seq", l |-> a, r |-> b]] : a \in Leaves, b \in Wrap(Leaves)}
 ScriptSpace == IF Tier = "quick" THEN Leaves \cup D1 \cup D2quick ELSE Leaves \cup D1 \cup D2full
-ParseCases == {[family |-> "parse", script |-> s] : s \in ScriptSpace}
-BeautifyCases == {[family |-> "beautify", script |-> s] : s \in ScriptSpace}
+\* deep chains: wrapper k of depth d around wrapper k+1 of depth d-1 ... around a leaf, behind a defining prefix; nesting
+\* depths the small family never reaches (layout is indentation = depth, whatever the depth)
+WrapK(k, d, a) ==
+    CASE k % 6 = 0 -> [op |-> "xor", l |-> a, r |-> [op |-> "null"]]
+      [] k % 6 = 1 -> [op |-> "par", l |-> [op |-> "null"], r |-> a]
+      [] k % 6 = 2 -> [op |-> "new", n |-> "x", i |-> a]
+      [] k % 6 = 3 -> [op |-> "match", a |-> SL("a"), b |-> SL("a"), i |-> a]
+      [] k % 6 = 4 -> [op |-> "fold", it |-> PV("x"), x |-> "i" \o ToString(d), i |-> [op |-> "seq", l |-> a, r |-> [op |-> "next", x |-> "i" \o ToString(d)]], last |-> NoneI]
+      [] OTHER     -> [op |-> "xor", l |-> [op |-> "seq", l |-> [op |-> "null"], r |-> a], r |-> [op |-> "never"]]
+RECURSIVE Chain(_, _)
+Chain(k, d) == IF d = 0 THEN CallI(<<PV("x")>>, "") ELSE WrapK(k, d, Chain(k + 1, d - 1))
+DeepChains == {[op |-> "seq", l |-> Def, r |-> Chain(k, d)] : k \in 0..5, d \in 3..(IF Tier = "quick" THEN 9 ELSE 14)}
+\* uses after a fold of what belongs to it: a second `next`, the iterator, a name defined in the body
+AfterFold ==
+    {[op |-> "seq", l |-> Def, r |-> [op |-> "seq", l |-> w, r |-> a]] :
+        w \in Wrap({[op |-> "next", x |-> "i"], [op |-> "seq", l |-> CallI(<<PV("i")>>, "y"), r |-> [op |-> "next", x |-> "i"]], [op |-> "null"]}),
+        a \in {[op |-> "next", x |-> "i"], CallI(<<PV("i")>>, ""), CallI(<<PV("y")>>, ""), [op |-> "next", x |-> "j"]}}
+ParseCases == {[family |-> "parse", script |-> s] : s \in ScriptSpace \cup DeepChains \cup AfterFold}
+BeautifyCases == {[family |-> "beautify", script |-> s] : s \in ScriptSpace \cup DeepChains}
 
 \* C23 oracle: every variable used is defined earlier in the text or is an enclosing fold iterator, every
 \* `next` lies inside a fold over its iterator.  Scoped(i, env) walks the instruction in text order and
@@ -184,15 +227,20 @@ Scoped(i, env) ==
                 la == IF i.last.op = "none" THEN [ok |-> TRUE, defs |-> b.defs]
                       ELSE Scoped(i.last, [env EXCEPT !.defs = b.defs, !.iters = @ \cup {i.x}]) IN
             [ok |-> usesOk /\ b.ok /\ la.ok, defs |-> la.defs]
-      [] i.op = "next" -> [ok |-> i.x \in env.iters, defs |-> env.defs]
+      [] i.op = "next" -> [ok |-> i.x \in env.iters \/ (env.relaxNext /\ i.x \in env.defs), defs |-> env.defs]
       [] i.op = "none" -> [ok |-> TRUE, defs |-> env.defs]
       [] OTHER -> [ok |-> usesOk, defs |-> env.defs \cup DefsOf(i)]
-WellScoped(script) == Scoped(script, [defs |-> {}, iters |-> {}, relaxFail |-> FALSE]).ok
+WellScoped(script) == Scoped(script, [defs |-> {}, iters |-> {}, relaxFail |-> FALSE, relaxNext |-> FALSE]).ok
 \* known finding "fail-scalar-undefined": the validator does not look at the operand of `fail <scalar>`
-WellScopedButFail(script) == Scoped(script, [defs |-> {}, iters |-> {}, relaxFail |-> TRUE]).ok
+WellScopedButFail(script) == Scoped(script, [defs |-> {}, iters |-> {}, relaxFail |-> TRUE, relaxNext |-> FALSE]).ok
+\* known finding "next-after-its-fold": a `next i` after the fold over i is accepted when the fold contains a next of
+\* its own (only the first recorded `next` of a name is checked; pinned upstream by the test fold_state_not_found)
+WellScopedButNext(script) == Scoped(script, [defs |-> {}, iters |-> {}, relaxFail |-> FALSE, relaxNext |-> TRUE]).ok
 
 ParseExpect(c, o) == o.res \in {"ok", "err"} /\ (o.res = "ok" => WellScoped(c.script))
-ParseTag(c, o) == IF o.res = "ok" /\ WellScopedButFail(c.script) THEN "fail-scalar-undefined" ELSE ""
+ParseTag(c, o) ==
+    IF o.res = "ok" /\ WellScopedButFail(c.script) THEN "fail-scalar-undefined"
+    ELSE IF o.res = "ok" /\ WellScopedButNext(c.script) THEN "next-after-its-fold" ELSE ""
 
 \* C28 oracle: the layout of the beautified script: one line per instruction in order, indentation = nesting
 \* depth with sequences flattened, compound instructions introduced by their keyword, operands as in the script.
@@ -368,7 +416,13 @@ Rec == ndJsonDeserialize(IOEnv.TRACE)
 CheckInit == cs = [family |-> "none"] /\ l = 1
 CheckNext == l <= Len(Rec) /\ l' = l + 1 /\ cs' = Rec[l].case
 CheckSpec == CheckInit /\ [][CheckNext]_<<cs, l>>
-Tag(c, o) == IF c.family = "parse" THEN ParseTag(c, o) ELSE ""
+\* known finding "map-absent-key-path": with an absent key and a longer path the canon map lens returns the empty group
+\* itself instead of failing to navigate into it (pinned upstream by canon_map_non_existing_index_and_element_tetraplet_check)
+LensTag(c, o) ==
+    IF c.carrier = "map" /\ Len(c.path) >= 2 /\ KeyText(c.path[1], c.kvar) # "?impossible"
+       /\ ~Lookup(c.value.q, KeyText(c.path[1], c.kvar)).ok /\ o.branch = "ok" /\ o.arg = Arr(<<>>)
+    THEN "map-absent-key-path" ELSE ""
+Tag(c, o) == IF c.family = "parse" THEN ParseTag(c, o) ELSE IF c.family = "lens" THEN LensTag(c, o) ELSE ""
 CheckCase ==
     l > 1 => (Expect(Rec[l - 1].case, Rec[l - 1].obs)
               \/ PrintT(<<"VIOLATION", IOEnv.PROP, Rec[l - 1].n, 0, Tag(Rec[l - 1].case, Rec[l - 1].obs)>>))
